@@ -42,6 +42,7 @@ def setup(ctx):
     ctx.require("monitor", "real_middleware_scenarios", 50)
     ctx.require("monitor", "l1_scenarios", 500)
     ctx.require("monitor", "responses_judged", 300)
+    ctx.require("monitor", "distinct_lines_in_one_process", 700)
     ctx.require("monitor", "l2_bounded_pipe_scenarios", 20)
     ctx.require("monitor", "l2_stalled_reader_connections", 12)
     ctx.require("monitor", "l2_scenarios", 20)
@@ -572,6 +573,25 @@ def run_l1(ctx):
                  sample={"label": label, "routing": routing, "script": scn["script"][:6], "stream": obs["stream"][:80]})
 
 
+def run_l1_many_lines(ctx):
+    """One server process answers hundreds of DIFFERENT valid request lines (a crawler walking a large capsule), then
+    the early ones again: every connection gets its one response, whatever the process remembers about lines it has seen."""
+    n = ctx.pick(700, 5000)
+    lines = [f"gemini://example.org/page/{i}/item-{i * 7919 % 1000}?q={i}".encode() + b"\r\n" for i in range(n)]
+    lines += [f"titan://example.org/up/{i};size=3;mime=text/plain".encode() + b"\r\nabc" for i in range(n // 4)]
+    order = lines + lines[:150] + lines[n:n + 50]
+    for j, data in enumerate(order):
+        hspec = {"mode": "sync" if j % 2 else "async", "delay": 0, "yield_once": False, "outcome": "value", "status": 20, "meta": "text/gemini", "body": f"page {j}\n"}
+        uspec = {k: v for k, v in hspec.items() if k != "mode"}
+        scn = {"routing": "spy", "label": "many-lines:" + ("titan" if data.startswith(b"titan") else "gemini") + (":again" if j >= len(lines) else ""), "request": data.hex(), "script": [["feed", data.hex()]],
+               "handler": hspec, "middleware": None, "upload": uspec}
+        obs = run_scenario(ctx, scn)
+        judge(ctx, scn, obs)
+        ctx.count("monitor", "l1_scenarios")
+        ctx.count("monitor", "distinct_lines_in_one_process")
+        ctx.case(("many-lines", scn["label"], obs["stream"][:2], obs["closing"]), True, sample={"label": scn["label"], "n": j + 1, "stream": obs["stream"][:40]})
+
+
 def run_l2(ctx):
     from vf import tlsbench
 
@@ -808,6 +828,8 @@ def run(ctx):
         run_l2(ctx)
         if ctx.mine(1) or ctx.nshards == 1:
             run_l2_stalled_reader(ctx)
+        if ctx.mine(5) or ctx.nshards == 1:
+            run_l1_many_lines(ctx)
         if ctx.shard == 0:
             run_l3(ctx)
     finally:
